@@ -17,7 +17,7 @@ META = {
     ),
     "anchors": ["fermionic_core.FermionicArray.conj", "fermionic_core.FermionicArray.dagger", "fermionic_core.oddpos_dag", "fermionic_core.resolve_combined_oddpos", "abelian_core.BlockIndex.conj"],
     "floors": {
-        "quick": {"evaluations": 8000, "distinct_nontrivial": 1200, "tables": {"law/norm-conj": 1500, "law/norm-dagger": 1500, "law/involution": 1500, "law/dagger=conjT": 800, "law/graded-adjoint": 800, "law/network-norm": 600, "feature/odd": 1500, "feature/bra-like-dangling": 100, "feature/multi-label-array": 300}},
+        "quick": {"evaluations": 8000, "distinct_nontrivial": 1200, "tables": {"law/norm-conj": 1500, "law/norm-dagger": 1500, "law/involution": 1500, "law/dagger=conjT": 800, "law/graded-adjoint": 800, "law/network-norm": 600, "feature/odd": 1500, "feature/bra-like-dangling": 100, "feature/removed-sector-mirrors-a-present-one": 200, "feature/multi-label-array": 300}},
         "thorough": {"evaluations": 250000, "distinct_nontrivial": 30000, "tables": {"law/network-norm": 30000}},
     },
     "wall": {"quick": 100, "thorough": 1700},
@@ -48,7 +48,7 @@ def twice_mech(default, x, y, pd, odd, m):
     return default
 
 
-def case_array(ctx, rng):
+def case_array(ctx, rng, dormant=False):
     sr = ctx.sr
     sym = rng.choice(gen.SYMS5)
     vals = gen.Values(rng, "int", rng.choice(["float64", "complex128"]))
@@ -56,8 +56,27 @@ def case_array(ctx, rng):
     nd = rng.randint(1, 4)
     idx = [gen.rand_index(sr, rng, sym, maxd=2, dual={"all-ket": False, "all-bra": True}.get(pattern)) for _ in range(nd)]
     lab = gen.label_for(rng, rng.choice(["int", "tuple", "str"]))
-    x = gen.make_array(sr, rng, sym, idx, fermionic=True, values=vals, label=lab)
-    if rng.random() < 0.3:
+    if dormant:
+        # every leg lists the same charges (so the mirror image of a sector is a sector too);
+        # after pending signs are created, one charge of one leg is removed WITHOUT synchronising
+        nd = rng.randint(2, 3)
+        cs = rng.sample(gen.POOL[sym], rng.randint(2, min(3, len(gen.POOL[sym]))))
+        d_ = rng.randint(1, 2)
+        idx = [sr.BlockIndex({c: d_ for c in sorted(cs)}, dual=(rng.random() < 0.5) if pattern == "random" else (pattern == "all-bra")) for _ in range(nd)]
+    x = gen.make_array(sr, rng, sym, idx, fermionic=True, values=vals, label=lab, sparsity=0.0 if dormant else None)
+    if dormant:
+        if len(x.blocks) < 2:
+            return
+        gen.add_phases(rng, x, rng.randint(1, 3))
+        x2 = gen.dormant_signs(sr, rng, x)
+        if x2 is x or not x2.blocks:
+            return
+        x = x2
+        if any(k_ not in x.blocks for k_ in phases_of(x)):
+            ctx.count("feature", "sign-entries-for-removed-blocks")
+        if any(k_ not in x.blocks and k_[::-1] in x.blocks for k_ in phases_of(x)):
+            ctx.count("feature", "removed-sector-mirrors-a-present-one")
+    if rng.random() < 0.3 and not dormant:
         # an array carrying two or three labels: open-legged product of odd tensors
         parts = []
         labs = rng.sample(range(1, 50), 3)
@@ -345,5 +364,7 @@ def case_network(ctx, rng):
 def run(ctx):
     for _, rng in ctx.cases("arrays", ctx.budget(12000, 250000)):
         ctx.run_case(case_array, ctx, rng)
+    for _, rng in ctx.cases("dormant-signs", ctx.budget(3000, 60000)):
+        ctx.run_case(case_array, ctx, rng, True)
     for _, rng in ctx.cases("networks", ctx.budget(6000, 120000)):
         ctx.run_case(case_network, ctx, rng)
